@@ -18,7 +18,8 @@ def check(prop, tier, seed):
     hit = C.cache_get(key)
     if hit is not None:
         hit["cache_hit"] = True
-        return [hit]
+        from . import store
+        return [hit, store.run_suite("smc_fault", tier, seed)]
     scripts = G.fault_scripts(seed, params["n"], 61000000) + G.fault_churn_scripts(seed, params["churn_per_kind"], 62000000)
     workdir = os.path.join(C.OUT, "work", key)
     C.sh(["rm", "-rf", workdir])
@@ -41,4 +42,6 @@ def check(prop, tier, seed):
     res["extra"] = {"distinct_kind_operation_k": len(combos)}
     C.sh(["rm", "-rf", workdir])
     C.cache_put(key, res)
-    return [res]
+    # Store_L1 with destructor-panic operations, model-checked and replayed
+    from . import store
+    return [res, store.run_suite("smc_fault", tier, seed)]
